@@ -34,6 +34,7 @@ type Schedule struct {
 	HotSites []int           `json:"hot_sites,omitempty"`
 	Order    []int           `json:"order,omitempty"`
 	Grants   []zzsimrt.Grant `json:"grants,omitempty"`
+	PoolSeed uint64          `json:"pool_seed,omitempty"` // != 0: the simulated sync.Pool drops items (seeded)
 }
 
 type Plan struct {
@@ -106,7 +107,9 @@ func main() {
 		m.devs = append(m.devs, d)
 	}
 	bip39.VerifSwapSource(m)
-	out := &Out{Outcomes: make([][]plan.Outcome, n), Delivered: make([][]string, n), Reads: make([][][]plan.ReadRec, n)}
+	out := &Out{}
+	// written by the tasks; main reads them only after wg.Wait() (never on deadlock / step cap)
+	outcomes, delivered, reads := make([][]plan.Outcome, n), make([][]string, n), make([][][]plan.ReadRec, n)
 	var wg sync.WaitGroup
 	tasks := make([]func(), n)
 	for i := 0; i < n; i++ {
@@ -122,18 +125,18 @@ func main() {
 					armed = d
 				}
 				o, _ := worker.Exec(&ops[k], armed)
-				out.Outcomes[i] = append(out.Outcomes[i], o)
+				outcomes[i] = append(outcomes[i], o)
 				if ops[k].K == "new" {
-					out.Delivered[i] = append(out.Delivered[i], hex.EncodeToString(d.Delivered))
-					out.Reads[i] = append(out.Reads[i], append([]plan.ReadRec(nil), d.Log...))
+					delivered[i] = append(delivered[i], hex.EncodeToString(d.Delivered))
+					reads[i] = append(reads[i], append([]plan.ReadRec(nil), d.Log...))
 				} else {
-					out.Delivered[i] = append(out.Delivered[i], "")
-					out.Reads[i] = append(out.Reads[i], nil)
+					delivered[i] = append(delivered[i], "")
+					reads[i] = append(reads[i], nil)
 				}
 			}
 		}
 	}
-	s := &zzsimrt.Sched{RecordFD: -1, StepCap: p.StepCap, HotSites: p.Schedule.HotSites}
+	s := &zzsimrt.Sched{RecordFD: -1, StepCap: p.StepCap, HotSites: p.Schedule.HotSites, PoolSeed: p.Schedule.PoolSeed}
 	if p.Record != "" {
 		fd, err := syscall.Open(p.Record, syscall.O_WRONLY|syscall.O_CREAT|syscall.O_TRUNC, 0644)
 		if err != nil {
@@ -162,6 +165,7 @@ func main() {
 	}
 	if res.Deadlock == "" && !res.StepCap && res.Protocol == "" {
 		wg.Wait() // the only happens-before edge the harness adds: task end -> main
+		out.Outcomes, out.Delivered, out.Reads = outcomes, delivered, reads
 		// fold the outcomes into the run digest
 		ob, _ := json.Marshal(out.Outcomes)
 		h := res.Digest
@@ -170,7 +174,7 @@ func main() {
 		}
 		out.Digest = fmt.Sprintf("%016x", h)
 	} else {
-		out.Outcomes, out.Delivered, out.Reads = nil, nil, nil // unfinished tasks still own them
+		// unfinished tasks still own outcomes/delivered/reads: not touched
 		out.Digest = fmt.Sprintf("%016x", res.Digest)
 	}
 	ob, err := json.Marshal(out)
